@@ -246,20 +246,21 @@ structure Inv (P : Nat) (d : Dec) : Prop where
   empty    : d.size = 0 → d.fragments = []
   declared : d.size ≠ 0 → (d.size : Int) + d.expected ≤ maxFrame
   bound    : d.size ≤ P ∨ 0 ≤ d.expected
+  nonempty : ∀ f ∈ d.fragments, 0 < f.length
 
 def Clean (d : Dec) : Prop := d.size = 0 ∧ d.fragments = []
 
 instance (d : Dec) : Decidable (Clean d) := by unfold Clean; infer_instance
 
-theorem c08_inv_init (P : Nat) : Inv P {} := ⟨rfl, fun _ => rfl, by simp, by simp⟩
+theorem c08_inv_init (P : Nat) : Inv P {} := ⟨rfl, fun _ => rfl, by simp, by simp, by simp⟩
 
 theorem inv_of_clean (P : Nat) (d : Dec) (h1 : d.size = 0) (h2 : d.fragments = []) : Inv P d :=
-  ⟨by simp [h1, h2], fun _ => h2, fun h => absurd h1 h, Or.inl (by omega)⟩
+  ⟨by simp [h1, h2], fun _ => h2, fun h => absurd h1 h, Or.inl (by omega), by simp [h2]⟩
 
 /-- **C08**: the invariant is preserved by `Decode` on EVERY packet. -/
 theorem c08_inv_decode (P : Nat) (d : Dec) (p : Pkt) (hi : Inv P d) (hp : p.payload.length ≤ P) :
     Inv P (decode d p).1 := by
-  obtain ⟨h1, h2, h3, h4⟩ := hi
+  obtain ⟨h1, h2, h3, h4, h5⟩ := hi
   have hreset : ∀ d' : Dec, Inv P d'.reset := fun d' => inv_of_clean P _ rfl rfl
   unfold decode
   split
@@ -275,22 +276,32 @@ theorem c08_inv_decode (P : Nat) (d : Dec) (p : Pkt) (hi : Inv P d) (hp : p.payl
     | some size =>
       have hb := frameSize_bounds _ _ hs
       simp only [List.length_drop] at hb
-      refine ⟨by simp [Dec.reset], ?_, ?_, ?_⟩
+      refine ⟨by simp [Dec.reset], ?_, ?_, ?_, ?_⟩
       · intro h; simp only [List.length_drop] at h; omega
       · intro _; simp only [List.length_drop]; omega
       · left; simp only [List.length_drop]; omega
+      · intro f hf
+        simp only [Dec.reset, List.nil_append, List.mem_singleton] at hf
+        subst hf; simp only [List.length_drop]; omega
   split
-  · split <;> exact ⟨h1, h2, h3, h4⟩
+  · split <;> exact ⟨h1, h2, h3, h4, h5⟩
+  split
+  · exact hreset d
   split
   · exact hreset d
   split
   · exact inv_of_clean P _ rfl rfl
-  rename_i hz _ hneg
+  rename_i hz _ hbody hneg
   split
-  · refine ⟨by simp [h1], ?_, ?_, ?_⟩
+  · refine ⟨by simp [h1], ?_, ?_, ?_, ?_⟩
     · intro h; simp only at h; omega
     · intro _; simp only; have := h3 hz; omega
     · right; simp only at hneg ⊢; omega
+    · intro f hf
+      simp only [List.mem_append, List.mem_singleton] at hf
+      rcases hf with hf | hf
+      · exact h5 f hf
+      · subst hf; omega
   · exact inv_of_clean P _ rfl rfl
 
 /-- **C08 bounded memory**: retained bytes ≤ largest AC-3 frame + one packet. -/
@@ -301,10 +312,25 @@ theorem c08_retained_le (P : Nat) (d : Dec) (hi : Inv P d) : retained d ≤ maxF
   · have := hi.declared hz
     rcases hi.bound with h | h <;> omega
 
+/-- **C08 bounded memory, number of retained slices**: every retained fragment is non-empty, so
+the decoder never holds more slices than retained bytes (the unrepaired decoder kept empty FT-3
+fragments without limit: fix 870da5e). -/
+theorem c08_fragment_count_le (P : Nat) (d : Dec) (hi : Inv P d) : d.fragments.length ≤ retained d := by
+  unfold retained
+  have h := hi.nonempty
+  generalize d.fragments = fs at h
+  induction fs with
+  | nil => simp
+  | cons f rest ih =>
+    have := h f (by simp)
+    have := ih (fun x hx => h x (by simp [hx]))
+    simp only [List.length_cons, totalLen, List.map_cons, List.sum_cons] at this ⊢
+    omega
+
 /-- **C08 output bound**: every returned frame is at most the largest AC-3 frame (3840 bytes). -/
 theorem c08_out_le (P : Nat) (d : Dec) (p : Pkt) (fs : List Bytes) (hi : Inv P d)
     (h : (decode d p).2 = .ok fs) : ∀ f ∈ fs, f.length ≤ maxFrame := by
-  obtain ⟨h1, h2, h3, h4⟩ := hi
+  obtain ⟨h1, h2, h3, h4, _⟩ := hi
   unfold decode at h
   split at h
   · simp at h
@@ -321,7 +347,9 @@ theorem c08_out_le (P : Nat) (d : Dec) (p : Pkt) (fs : List Bytes) (hi : Inv P d
   · simp at h
   split at h
   · simp at h
-  rename_i hz _ hneg
+  split at h
+  · simp at h
+  rename_i hz _ _ hneg
   split at h
   · simp at h
   · rename_i hpos
@@ -361,7 +389,7 @@ theorem decode_start (d : Dec) (p : Pkt) (ft nf : UInt8) (body : Bytes) (size : 
 
 /-- `Decode` on a following fragment (FT 3) that is expected -/
 theorem decode_cont (d : Dec) (p : Pkt) (nf : UInt8) (body : Bytes) (h : p.payload = 3 :: nf :: body)
-    (hz : d.size ≠ 0) (hs : p.seq = d.nextSeq) (hnn : ¬ d.expected - body.length < 0) :
+    (hz : d.size ≠ 0) (hs : p.seq = d.nextSeq) (hb : body.length ≠ 0) (hnn : ¬ d.expected - body.length < 0) :
     decode d p =
       if d.expected - body.length > 0 then
         ({ d with fragments := d.fragments ++ [body], size := d.size + body.length,
@@ -370,10 +398,11 @@ theorem decode_cont (d : Dec) (p : Pkt) (nf : UInt8) (body : Bytes) (h : p.paylo
         ({ d with fragments := [], size := 0, expected := d.expected - body.length, nextSeq := d.nextSeq + 1 },
          .ok [joinFragments (d.fragments ++ [body]) (d.size + body.length)]) := by
   simp only [gt_iff_lt, Int.sub_pos] at hnn ⊢
-  simp [decode, h, hz, hs, hnn, Dec.reset, len2, u8_shr.2.2, u8_and.2.2]
+  have hb' : ¬ body = [] := fun h0 => hb (by simp [h0])
+  simp [decode, h, hz, hs, hnn, hb', Dec.reset, len2, u8_shr.2.2, u8_and.2.2]
 
 /-- the following fragments of a frame, fed to a decoder that holds the earlier ones -/
-theorem run_rest (c : EncCfg) (ts : UInt32) (avail : Nat) (nf : UInt8) (k : Nat) (sq : UInt16)
+theorem run_rest (c : EncCfg) (ts : UInt32) (avail : Nat) (hav : 0 < avail) (nf : UInt8) (k : Nat) (sq : UInt16)
     (rest : Bytes) (d : Dec) (hsz : d.size = totalLen d.fragments) (hpos : d.size ≠ 0)
     (hexp : d.expected = rest.length) (hseq : d.nextSeq = sq) (hlo : k * avail < rest.length) :
     ∃ d', runDec d (emitFrag c ts avail nf (k + 1) sq 3 rest)
@@ -381,7 +410,7 @@ theorem run_rest (c : EncCfg) (ts : UInt32) (avail : Nat) (nf : UInt8) (k : Nat)
   induction k generalizing sq rest d with
   | zero =>
     have hd := decode_cont d { pt := c.pt, seq := sq, ts := ts, ssrc := c.ssrc, marker := true, payload := [3, nf] ++ rest }
-      nf rest rfl hpos hseq.symm (by rw [hexp]; omega)
+      nf rest rfl hpos hseq.symm (by omega) (by rw [hexp]; omega)
     have hng : ¬ d.expected - (rest.length : Int) > 0 := by rw [hexp]; omega
     simp only [hng, ↓reduceIte] at hd
     refine ⟨{ d with fragments := [], size := 0, expected := d.expected - rest.length, nextSeq := d.nextSeq + 1 }, ?_, ?_⟩
@@ -398,7 +427,7 @@ theorem run_rest (c : EncCfg) (ts : UInt32) (avail : Nat) (nf : UInt8) (k : Nat)
     have htake : (rest.take avail).length = avail := by simp [List.length_take]; omega
     have hd := decode_cont d { pt := c.pt, seq := sq, ts := ts, ssrc := c.ssrc, marker := false,
                                payload := [3, nf] ++ rest.take avail }
-      nf (rest.take avail) rfl hpos hseq.symm (by rw [hexp, htake]; omega)
+      nf (rest.take avail) rfl hpos hseq.symm (by omega) (by rw [hexp, htake]; omega)
     have hg : d.expected - ((rest.take avail).length : Int) > 0 := by rw [hexp, htake]; omega
     simp only [hg, ↓reduceIte] at hd
     obtain ⟨d', hrun, hclean⟩ := ih (sq + 1) (rest.drop avail)
@@ -459,7 +488,7 @@ theorem run_batch (c : EncCfg) (hc : ValidCfg c) (b : List Bytes) (hne : b ≠ [
                                   payload := [ft, UInt8.ofNat (k + 2)] ++ f.take (c.max - 4) }
         ft _ (f.take (c.max - 4)) f.length rfl hft'
         (by rw [frameSize_take f _ hfb.1 (by omega)]; exact hvf)
-      obtain ⟨d', hrun, hclean⟩ := run_rest c ts (c.max - 4) (UInt8.ofNat (k + 2)) k (sq + 1) (f.drop (c.max - 4))
+      obtain ⟨d', hrun, hclean⟩ := run_rest c ts (c.max - 4) hpos (UInt8.ofNat (k + 2)) k (sq + 1) (f.drop (c.max - 4))
         { first := true, fragments := [f.take (c.max - 4)], size := (f.take (c.max - 4)).length,
           expected := (f.length : Int) - (f.take (c.max - 4)).length, nextSeq := sq + 1 }
         (by simp) (by simp only [htake]; omega) (by simp only [htake, List.length_drop]; omega) rfl
@@ -601,6 +630,33 @@ theorem c03_roundtrip_many (e : Enc) (gs : List (List Bytes)) (d : Dec) (hc : Va
 
 /-! ## C07 — resynchronisation -/
 
+/-- **C07 at most once**: whenever frames are returned the fragment buffer is empty afterwards —
+nothing can be returned twice. -/
+theorem c07_ok_empties (d : Dec) (p : Pkt) (fs : List Bytes) (h : (decode d p).2 = .ok fs) :
+    Clean (decode d p).1 := by
+  generalize hr : decode d p = r at h ⊢
+  unfold decode at hr
+  split at hr
+  · subst hr; simp at h
+  simp only [] at hr
+  split at hr
+  · subst hr; simp at h
+  split at hr
+  · subst hr; rw [splitFrames_state]; exact ⟨rfl, rfl⟩
+  split at hr
+  · split at hr <;> (subst hr; simp at h)
+  split at hr
+  · split at hr <;> (subst hr; simp at h)
+  split at hr
+  · subst hr; simp at h
+  split at hr
+  · subst hr; simp at h
+  split at hr
+  · subst hr; simp at h
+  split at hr
+  · subst hr; simp at h
+  · subst hr; exact ⟨rfl, rfl⟩
+
 /-- **C07 flush**: from ANY state, the packets of one intact valid group, in order, leave the
 decoder clean (every first packet of a piece resets the fragment state). -/
 theorem c07_flush (e : Enc) (fs : List Bytes) (d : Dec) (hc : ValidCfg e.cfg) (hf : ValidFrame fs) :
@@ -618,6 +674,13 @@ theorem c07_resync (h : List Pkt) (e : Enc) (g : List Bytes) (hc : ValidCfg e.cf
       (okFrames outs).flatten = g := by
   obtain ⟨_, d', outs, h1, h2, h3, _, h5⟩ := c03_roundtrip_grouping e g (runDec {} h).1 hc hg
   exact ⟨d', outs, h1, h2, h3, h5⟩
+
+/-! ## facts the model depends on (regenerated from /repo on every run) -/
+
+/-- the decoder refuses following fragments without data (fix 870da5e is in the tree) -/
+example : CodecAudio.ac3EmptyFragmentRefused = true := rfl
+/-- the frame-size table has 38 rows and its largest entry is 1920 words -/
+example : CodecAudio.ac3FrameSizeRows = frameSizes.length ∧ CodecAudio.ac3MaxFrameWords = 1920 := ⟨rfl, rfl⟩
 
 /-! ## non-vacuity: the hypotheses are satisfiable by non-trivial values -/
 
@@ -642,6 +705,6 @@ set_option maxRecDepth 8000 in
 example : Fits (exEnc 300).cfg [exUnit, exUnit] := by unfold Fits; decide
 /-- a dirty state (mid-frame, wrong expected sequence number) satisfies the invariant -/
 example : Inv 1500 { first := true, fragments := [[1, 2], [3]], size := 3, expected := 125, nextSeq := 77 } :=
-  ⟨by decide, by decide, by decide, by decide⟩
+  ⟨by decide, by decide, by decide, by decide, by decide⟩
 
 end Rtsp.Codec.Ac3
